@@ -790,6 +790,7 @@ func (i *interpreter) doSelect(fr *frame, instr *ssa.Select) value {
 			}
 			c := timers[0]
 			chosen = c.idx
+			i.progress++ // a timer fired: that is progress
 			recv, recvOk = i.chanRecv(c.ch, instr.States[c.idx].Chan.Type().Underlying().(*types.Chan).Elem())
 		}
 		r := tuple{chosen, recvOk}
